@@ -161,7 +161,7 @@ def st_scenario(draw):
             ops.append(["filler"])
         subs.append(ops)
     schedule = draw(st.lists(st.integers(0, 5), min_size=0, max_size=60))
-    scn = {"reqs": reqs, "subs": subs, "schedule": schedule, "purpose_offset": draw(st.sampled_from([0, 1, 1, 7]))}
+    scn = {"reqs": reqs, "subs": subs, "schedule": schedule, "purpose_offset": draw(st.sampled_from([0, 1, 1, 7])), "big_fields": draw(st.integers(0, 3)) == 0}
     if draw(st.integers(0, 2)) == 0:
         # another controller in the same process holds responses it cannot use yet (they arrived before its receive
         # instruction); they are its own business
@@ -280,7 +280,9 @@ class Scheduler:
         r = self.scn["reqs"][i]
         self.seq += 1
         direction = 0 if r["role"] == "create" else 1
-        rec = {"req": i, "pair": k, "seq": 1000 + self.seq, "create_id": 500 + self.seq, "goodness": 70 + self.seq, "bell": self.seq % 4, "outcome": self.seq % 2,
+        # (timestamps and counters of a link layer need not be small: a quarter of the scenarios carry values beyond 32 bits)
+        big = 3_000_000_000 if self.scn.get("big_fields") else 0
+        rec = {"req": i, "pair": k, "seq": 1000 + self.seq + big, "create_id": 500 + self.seq, "goodness": 70 + self.seq + big, "bell": self.seq % 4, "outcome": self.seq % 2,
                "early": i not in self.executed_reqs}
         if rec["early"]:
             self.early += 1
@@ -288,7 +290,7 @@ class Scheduler:
             phys = self.ex._get_unused_physical_qubit()
             rec["phys"] = phys
             resp = LinkLayerOKTypeK(type=ReturnType.OK_K, create_id=rec["create_id"], logical_qubit_id=phys, directionality_flag=direction,
-                                    sequence_number=rec["seq"], purpose_id=r["sock"] + self.stack.purpose_offset, remote_node_id=r["remote"], goodness=rec["goodness"], goodness_time=3, bell_state=rec["bell"])
+                                    sequence_number=rec["seq"], purpose_id=r["sock"] + self.stack.purpose_offset, remote_node_id=r["remote"], goodness=rec["goodness"], goodness_time=3 + 2 * big, bell_state=rec["bell"])
         else:
             resp = LinkLayerOKTypeM(type=ReturnType.OK_M, create_id=rec["create_id"], measurement_outcome=rec["outcome"], measurement_basis=0, directionality_flag=direction,
                                     sequence_number=rec["seq"], purpose_id=r["sock"] + self.stack.purpose_offset, remote_node_id=r["remote"], goodness=rec["goodness"], bell_state=rec["bell"])
@@ -494,6 +496,8 @@ def shard(ctx: Ctx) -> None:
             labels.append("create-with-longer-result-array")
         if any(r["reuse"] for r in scn["reqs"]):
             labels.append("virtual-id-reuse")
+        if scn.get("big_fields"):
+            labels.append("response-fields-beyond-32-bits")
         if any("ids_from" in r for r in scn["reqs"]):
             labels.append("id-array-address-used-again")
         keys = [(r["remote"], r["sock"], r["role"]) for r in scn["reqs"]]
